@@ -52,7 +52,7 @@ func (c *Ctx) runWorkers() {
 	if c.Replay != "" {
 		n = 1
 	}
-	dir := filepath.Join(Root, ".work", "shards-"+c.ID)
+	dir := filepath.Join(Root, ".work", fmt.Sprintf("shards-%s-%d", c.ID, os.Getpid()))
 	os.RemoveAll(dir)
 	os.MkdirAll(dir, 0o755)
 	defer os.RemoveAll(dir)
